@@ -212,6 +212,7 @@ class Session:
         self.results: list[dict] = []
         self.audit_marks: list[int] = []      # max audit seq after each action
         self.ledger_marks: list[int] = []     # ledger length after each action
+        self.queue_marks: list[int] = []      # highest queue row id ever allocated, after each action
 
     def snap(self) -> str:
         return canon(self.env.alpha(), self.idx, len(self.env.ledger))
@@ -254,6 +255,7 @@ class Session:
         self.results.append(r)
         self.audit_marks.append(env.audit_max())
         self.ledger_marks.append(len(env.ledger))
+        self.queue_marks.append(env.queue_max_id())
         return r
 
     def rows(self):
@@ -548,7 +550,7 @@ def run_case(case: dict) -> dict:
             "oracle_text": sess.oracle_text(), "ledger": env.ledger, "audit": env.audit(),
             "final": env.alpha(), "results": sess.results, "idx": sess.idx, "wall": time.time() - t0,
             "id_ref": env.id_ref, "task_ids": {k: list(v) for k, v in env.task_ids.items()},
-            "handled": env.handled, "audit_marks": sess.audit_marks, "ledger_marks": sess.ledger_marks,
+            "handled": env.handled, "audit_marks": sess.audit_marks, "ledger_marks": sess.ledger_marks, "queue_marks": sess.queue_marks,
             "quiescent": len(env.rows()) == 0,
         }
         return out
